@@ -100,6 +100,9 @@ func (g *glueLine) call(j int, stub bool) *tak.Position {
 	}
 	if stub {
 		t += g.answer(p) + g.verdicts()
+		if g.r.Chance(1, 5) {
+			t += ";x=1"
+		}
 	}
 	g.toks = append(g.toks, t)
 	return p
@@ -615,4 +618,7 @@ func glueFns(c *Ctx) {
 func init() {
 	genTable["C20glue"] = genC20glue
 	genTable["C07glue"] = genC07glue
+	// C16 names cmd/internal/playtak/taktician.go: the Taktician part alone (calls whose time budget runs out while the
+	// engine searches return the engine's truncated answer, not nothing)
+	genTable["C16glueT"] = func(c *Ctx) { glueTaktician(c, "C16glueT", 3) }
 }
